@@ -103,6 +103,23 @@ def run_cvc5(smt2, timeout_s):
             pass
 
 
+import threading as _threading
+
+
+def guarded_check(solver, budget_ms, *extra):
+    """solver.check() with a watchdog: z3 sometimes overruns its own timeout inside string /
+    arithmetic preprocessing; the watchdog interrupts the context (result: unknown)."""
+    timer = _threading.Timer(budget_ms / 1000.0 * 1.5 + 1.0, solver.ctx.interrupt)
+    timer.daemon = True
+    timer.start()
+    try:
+        return solver.check(*extra)
+    except z3.Z3Exception:
+        return z3.unknown
+    finally:
+        timer.cancel()
+
+
 def discharge(ctx, name, goal, info=None):
     from .engine import Oblig
     eng = ctx.eng
@@ -120,10 +137,10 @@ def discharge(ctx, name, goal, info=None):
     reason = ""
     try:
         s.add(neg)
-        r = s.check()
+        r = guarded_check(s, quick_ms)
         if r == z3.sat:
             model = extract_model(ctx, s.model())
-        reason = s.reason_unknown() if r == z3.unknown else ""
+        reason = "unknown" if r == z3.unknown else ""
     finally:
         s.pop()
         s.set("timeout", eng.branch_timeout_ms)
@@ -137,7 +154,7 @@ def discharge(ctx, name, goal, info=None):
         for c in ctx.pc:
             s1.add(c)
         s1.add(neg)
-        r1 = s1.check()
+        r1 = guarded_check(s1, min(eng.vc_timeout_ms, 5000))
         if r1 == z3.unsat:
             status = "valid"
             backend = "z3-fresh"
@@ -159,7 +176,7 @@ def discharge(ctx, name, goal, info=None):
             for c in ctx.pc:
                 s2.add(c)
             s2.add(neg)
-            r2 = s2.check()
+            r2 = guarded_check(s2, eng.vc_timeout_ms)
             if r2 == z3.unsat:
                 status = "valid"
                 backend = "z3-fresh"
